@@ -198,7 +198,7 @@ def run_exact(rep, tier):
         exp = struct(protos[i]) == struct(protos[j])
         chk(f"eq[{i},{j}]", "VS-eq", bool(e) == exp, f"vspace({struct(protos[i])}) == vspace({struct(protos[j])}) is {e}, expected {exp}")
     # ---- containers (nested): axioms lifted leaf-wise, exact
-    nest = [("tuple2", lambda s: (s(2), s())), ("list-dict", lambda s: [s(2), {"k": s(), "j": (s(2),)}]), ("empty", lambda s: ((), [], {}))]
+    nest = [("tuple2", lambda s: (s(2), s())), ("list-dict", lambda s: [s(2), {"k": s(), "j": (s(2),)}]), ("empty", lambda s: ((), [], {})), ("dict3", lambda s: {"b": s(2), "a": s(2), "c": s(2)})]
     for name, mkp in nest:
         ctr = itertools.count()
 
@@ -229,6 +229,16 @@ def run_exact(rep, tier):
         chk(case, "VS-zero", ceq(vs._add(x, vs.zeros()), x))
         chk(case, "VS-add-comm", ceq(vs._add(x, y), vs._add(y, x)))
         chk(case, "VS-add-assoc", ceq(vs._add(vs._add(x, y), w), vs._add(x, vs._add(y, w))))
+
+        def reorder(c):
+            if isinstance(c, dict):
+                return {k_: reorder(c[k_]) for k_ in reversed(list(c))}
+            if isinstance(c, (list, tuple)):
+                return type(c)(reorder(v) for v in c)
+            return c
+        chk(case, "VS-key-order", ceq(vs._add(x, reorder(y)), vs._add(x, y)) and ceq(vs._scalar_mul(reorder(x), a), vs._scalar_mul(x, a))
+            and (nl_ := sum(len(S.entries(l)) for l in leaves(x))) >= 0 and (nl_ == 0 or vs._inner_prod(x, reorder(y)) == vs._inner_prod(x, y)),
+            "operations pair leaves by key, not by dict insertion order")
         chk(case, "VS-smul-distrib", ceq(vs._scalar_mul(vs._add(x, y), a), vs._add(vs._scalar_mul(x, a), vs._scalar_mul(y, a))))
         nl = sum(len(S.entries(l)) for l in leaves(x))
         chk(case, "VS-size", int(vs.size) == nl, f"size {vs.size} vs {nl}")
